@@ -140,7 +140,14 @@ static std::string vref(const Value *V, FnCtx &C) {
   return "[\"x\"," + jstr(os.str()) + "]";
 }
 
+static std::string scevJsonInner(const SCEV *S, FnCtx &C, LoopInfo &LI);
 static std::string scevJson(const SCEV *S, FnCtx &C, LoopInfo &LI) {
+  std::string r = scevJsonInner(S, C, LI);
+  if (S->getSCEVType() != scCouldNotCompute && S->getType() && S->getType()->isIntegerTy() && r.size() > 2 && r[0] == '{')
+    r = "{\"w\":" + std::to_string(S->getType()->getIntegerBitWidth()) + "," + r.substr(1);
+  return r;
+}
+static std::string scevJsonInner(const SCEV *S, FnCtx &C, LoopInfo &LI) {
   switch (S->getSCEVType()) {
   case scConstant: {
     auto *K = cast<SCEVConstant>(S);
